@@ -14,6 +14,8 @@ func main() {
 	switch os.Args[1] {
 	case "check":
 		os.Exit(cmdCheck(os.Args[2:]))
+	case "bindings":
+		os.Exit(cmdBindings(os.Args[2:]))
 	case "sweep":
 		os.Exit(cmdSweep(os.Args[2:]))
 	case "dump":
